@@ -16,6 +16,7 @@ mutual
 def Obj.valid : Obj → Bool
   | .coll _ xs => Obj.validL xs
   | .dict kvs => nodupPy (keysOf kvs) && Obj.validKV kvs
+  | .mdict _ kvs => nodupPy (keysOf kvs) && Obj.validKV kvs
   | .inst _ fs => Obj.validF fs
   | _ => true
 termination_by structural x => x
@@ -184,7 +185,8 @@ def Ty.supG (td : Bool) : Ty → Bool
   | .any => false
   | .coll k t => t.supG td && (!k.structTo.isSet || t.hashPrim)
   | .tupleHet ts => Ty.supGL td ts
-  | .map _ kt vt => kt.hashPrim && kt.supG td && vt.supG td
+  -- (a mapping type with a target class other than `dict` is structured into that class by a `Converter` only)
+  | .map k kt vt => kt.hashPrim && kt.supG td && vt.supG td && (td || k.target.isNone)
   | .opt t => t.supG td
   | .wrap _ t => t.supG td
   | .td _ => td
@@ -372,7 +374,8 @@ theorem un_ne_none (td tup : Bool) (hg : cfg.gen = true) (hwe : w.WFE) :
   | .enum e, .none, _, _, _, hx => absurd rfl hx
   | .enum e, .bool _, _, _, hc, _ | .enum e, .int _, _, _, hc, _ | .enum e, .flt _, _, _, hc, _
   | .enum e, .str _, _, _, hc, _ | .enum e, .bytes _, _, _, hc, _ | .enum e, .coll _ _, _, _, hc, _
-  | .enum e, .dict _, _, _, hc, _ | .enum e, .inst _ _, _, _, hc, _ | .enum e, .opaque _, _, _, hc, _ => by
+  | .enum e, .dict _, _, _, hc, _ | .enum e, .inst _ _, _, _, hc, _ | .enum e, .opaque _, _, _, hc, _
+  | .enum e, .mdict _ _, _, _, hc, _ => by
       simp [conf] at hc
   | .lit vs, x, _, hu, hc, hx => by
       cases he : litHasEnum vs with
@@ -397,10 +400,11 @@ theorem un_ne_none (td tup : Bool) (hg : cfg.gen = true) (hwe : w.WFE) :
   | .tupleHet ts, .none, _, _, hc, _ | .tupleHet ts, .bool _, _, _, hc, _ | .tupleHet ts, .int _, _, _, hc, _
   | .tupleHet ts, .flt _, _, _, hc, _ | .tupleHet ts, .str _, _, _, hc, _ | .tupleHet ts, .bytes _, _, _, hc, _
   | .tupleHet ts, .enumM _ _, _, _, hc, _ | .tupleHet ts, .dict _, _, _, hc, _ | .tupleHet ts, .inst _ _, _, _, hc, _
-  | .tupleHet ts, .opaque _, _, _, hc, _ => by simp [conf] at hc
+  | .tupleHet ts, .opaque _, _, _, hc, _ | .tupleHet ts, .mdict _ _, _, _, hc, _ => by simp [conf] at hc
   | .map _ kt vt, x, _, _, hc, _ => by
       cases x <;> simp [conf] at hc
-      rw [un]; simp [hg]
+      · rw [un]; simp [hg]
+      · rw [un]; simp [hg]
   | .opt t, x, hs, hu, hc, hx => by
       rw [un_opt_some w cfg hx hg]
       rw [conf_opt_some w hx] at hc
